@@ -376,7 +376,15 @@ func (ex *Exec) noteAccess(l *Loc, write bool) {
 
 func (ex *Exec) freeze(l *Loc, label string) {
 	ex.frozenN++
+	ex.freezing = label
 	ex.walkMsg(l, func(c *Loc) { c.Frozen = label }, map[*Loc]bool{})
+	ex.freezing = ""
+}
+
+func (ex *Exec) frozenMap(m *MapObj) {
+	ex.res.Violations = append(ex.res.Violations, Violation{Label: "frozen-store:" + m.Frozen,
+		Detail: "write to a map of a message that was handed out (" + m.Frozen + ")" + ex.where(), Model: ex.safeModel()})
+	m.Frozen = ""
 }
 
 // walkMsg visits every location reachable from l through pointers, slices and maps.
@@ -406,6 +414,9 @@ func (ex *Exec) walkVal(v Value, f func(*Loc), seen map[*Loc]bool) {
 		}
 	case MapV:
 		if x.M != nil {
+			if ex.freezing != "" {
+				x.M.Frozen = ex.freezing
+			}
 			for _, l := range x.M.Vals {
 				ex.walkMsg(l, f, seen)
 			}
